@@ -54,7 +54,7 @@ inductive Res (α : Type) where
   | err (e : Err)
   | panic
   | loop
-  deriving Repr, Inhabited
+  deriving Repr, Inhabited, DecidableEq
 
 namespace Res
 @[inline] def bind {α β : Type} (x : Res α) (f : α → Res β) : Res β :=
